@@ -33,6 +33,12 @@ pub fn run(out: &mut Out, thorough: bool, seed: u64, _extra: &[String]) {
         let qs = match pick_primes(&mut r, n, &bits) { Some(v) => v, None => continue };
         for scheme in [SchemeType::BFV, SchemeType::BGV, SchemeType::CKKS] {
             let tk = r.below(2); let t = if scheme == SchemeType::CKKS { 0 } else { pick_plain(&mut r, n, tk, &qs) };
+            // every third chain (BFV/BGV): all primes after the first are 1 modulo t (the `create_with_plain_modulus` shape: q^-1 mod t = 1, the
+            // BGV correction factor stays 1 and the guarded fast paths of the division routines are taken)
+            let mut qs = qs.clone();
+            if scheme != SchemeType::CKKS && rep % 3 == 1 && t >= 3 {
+                for i in 1..qs.len() { if let Some(p) = prime_one_mod(n, t, 45, &qs) { qs[i] = p; } }
+            }
             if scheme != SchemeType::CKKS && qs.iter().any(|&q| gcd(q, t) != 1) { continue; }
             let s = match make(scheme, n, &qs, t, true, None) { Some(s) => std::sync::Arc::new(s), None => continue };
             let levels = s.levels();
